@@ -259,7 +259,9 @@ def _run_chunk(exe, lines, env=None, timeout=600, crash_marker='{"err":"crash"}'
                                timeout=timeout, env=env,
                                preexec_fn=_limits if os.path.basename(exe) == "rulio-model" else None)
             out = [l for l in p.stdout.split("\n") if l.strip()]
-            stderr_tail = p.stderr[-600:]
+            # the reason of a Go crash is its first line ("fatal error: ...", "panic: ..."); keep it together with the tail
+            head = next((l for l in p.stderr.split("\n") if l.startswith("fatal error:") or l.startswith("panic:")), "")
+            stderr_tail = (head + " ... " if head else "") + p.stderr[-600:]
         except subprocess.TimeoutExpired as e:
             so = e.stdout.decode() if isinstance(e.stdout, bytes) else (e.stdout or "")
             out = [l for l in so.split("\n") if l.strip()]
@@ -278,7 +280,7 @@ def _run_chunk(exe, lines, env=None, timeout=600, crash_marker='{"err":"crash"}'
             if out and out[-1].startswith('{"err":"hang"'):
                 continue  # the hang was reported on its own line; go on with the rest
             crashes += 1
-            results.append(json.dumps({"err": "crash", "stderr": stderr_tail[-300:]}))
+            results.append(json.dumps({"err": "crash", "stderr": stderr_tail[:120] + stderr_tail[120:][-300:]}))
             pos += 1
             if crashes > 200:
                 results += [json.dumps({"err": "skipped"})] * (len(lines) - pos)
